@@ -97,6 +97,12 @@ def step (rf : Nat) (st : Streams) (s : St) (stepStr : String) (implAns : String
       let g := showGetSub (getOnShardLB s.c st rf hbTie ident size period now (_key.toNat?.getD 0) allOp nowTie)
       let (m, c') := queryShardLB s.c st ident size period now; putH hit c' (showSub m ++ "#" ++ g)
     | _, _, _ => put s.c "parse-error"
+  | ["Q", "O", mask, key] =>
+    let healthy := mask.toList.filterMap fun ch =>
+      if ch == 'A' then some State.ACTIVE else if ch == 'L' then some State.LEAVING else if ch == 'P' then some State.PENDING
+      else if ch == 'J' then some State.JOINING else if ch == 'X' then some State.LEFT else none
+    let m := readOpSub s.c.desc healthy
+    put s.c (showSub m ++ "#" ++ showGetSub (subGet (s.c.rcfg rf hbTie) m (key.toNat?.getD 0) allOp nowTie))
   | ["Q", "G", key] =>
     match key.toNat? with
     | some key =>
@@ -121,6 +127,7 @@ def modelled (stepStr : String) : Nat :=
   match stepStr.splitOn "!" with
   | "Q" :: "S" :: _ => 4
   | "Q" :: "L" :: _ => 4
+  | "Q" :: "O" :: _ => 4
   | _ => 1000
 
 /-- erase the `versions` field of every instance encoding inside an answer. -/
